@@ -203,6 +203,17 @@ def pacing_scenarios(tier):
                                                 conns=[C("A", "B", "po", "mi")]), [0, 0.5, 1.5]))
         out.append((f"rt_indep2_{rf}x{tr}", dict(base, until=3, sims=[T("A"), T("B", 2)], conns=[]),
                     [0, 1.5]))
+        # negative entries: the simulator blocks the event loop for that long (a synchronous
+        # in-process simulator), so other processes start late
+        big = tier != "quick"
+        out.append((f"rt_block_idle_{rf}x{tr}", dict(base, until=3, sims=[T("A"), E("B")], conns=[]),
+                    [0, -0.5, -2.5] if big else [0, -2.5]))
+        out.append((f"rt_block_indep2_{rf}x{tr}", dict(base, until=3, sims=[T("A"), T("B", 2)], conns=[]),
+                    [0, -1.5]))
+        out.append((f"rt_block_chain_{rf}x{tr}", dict(base, until=3 if big else 2,
+                                                      sims=[T("A"), E("B"), T("X", 2)],
+                                                      conns=[C("A", "B", "po", "ti")]),
+                    [0, 1.5, -1.5] if big and rf == 1 else [0, -1.5]))
     out.append(("rt_group", dict(rt_factor=1, until=3, groups={"g": None},
                                  sims=[T("A", group="g"), T("B", group="g"), T("X")],
                                  conns=[C("A", "B", "po", "mi")]), [0, 1.5]))
@@ -332,7 +343,8 @@ def check(prop, tier):
     )
     evidence.write("C17", tier, "model_checking", cov,
                    ["virtual clock: perf_counter = virtual time + n*2^-30 (strictly increasing)",
-                    "latency alphabet {instant, 0.5f, 1.5f, 2.5f}; events on a grid of f/2",
+                    "latency alphabet {instant, 0.5f, 1.5f, 2.5f} awaited, {0.5f, 1.5f, 2.5f} blocking the "
+                    "event loop; events on a grid of f/2",
                     "only future events (t greater than the current real-time step index) are injected",
                     "external events only for simulators outside groups (set_event addresses plain "
                     "integer times)"],
